@@ -85,6 +85,14 @@ def cases(tier):
               R("chain2", "uint32_t", ["uint32_t x"], "{ uint32_t chain2_t = dbl(x); return inc1(chain2_t); }")]
     for st in ["r = pick2(a);", "r = pick2(a) + pick2(b);", "r = lead2(a);", "r = chain2(a);", "r = chain2(pick2(a));"]:
         out.append((rts_r, P(d, st, ["r"]), ("return-call", st)))
+    # a call in a condition reads what the statements in front of it computed (at a call site and inside a routine body)
+    rts_c = rts_r + [R("condcall", "uint32_t", ["uint32_t x"], "{ uint32_t condcall_q = x + 7; if (inc1(condcall_q) > 9) { return 1; } else { return 2; } }"),
+                     R("condcall1", "uint32_t", ["uint32_t x"], "{ uint32_t condcall1_q = x + 7; if (inc1(condcall1_q) > 9) { return 1; } return dbl(condcall1_q); }"),
+                     R("loopcall", "uint32_t", ["uint32_t x"], "{ uint32_t loopcall_s = x; int32_t loopcall_i; for (loopcall_i = 0; loopcall_i < 2; loopcall_i++) { loopcall_s = inc1(loopcall_s); } return loopcall_s; }")]
+    for st in ["r = a + 7; if (inc1(r) > 9) { r = 1; } else { r = 2; }", "r = a + 7; if (inc1(r) > 9) { r = 1; }", "r = a; r = dbl(r); if (inc1(r) > 9) { r = inc1(r); } else { r = dbl(r); }",
+               "r = a + 7; r = (inc1(r) > 9) ? dbl(r) : 3;", "r = condcall(a);", "r = condcall1(a);", "r = loopcall(a);", "r = condcall(a) + condcall1(b);", "r = b; for (i = 0; i < 2; i++) { r = inc1(r); }",
+               "r = a; if (b) { r = r + 7; if (inc1(r) > 9) { r = 1; } else { r = 2; } }"]:
+        out.append((rts_c, P(d + [("int32_t", "i", "local")], st, ["r"]), ("cond-call", st)))
     for st in ["r = pickr(a);", "r = route(a);", "r = route(a) + route(b);", "r = lsum(a);", "r = rexp(a);", "r = pickr(a) + rexp(b);", "if (b) { r = route(a); } else { r = pickr(a); }"]:
         out.append((rts_r, P(d, st, ["r"]), ("return-hybrid", st)))
     rts = [R("early", "int32_t", ["int32_t x"], "{ if (x == 0) { return 77; } return x + 1; }")]
